@@ -267,6 +267,10 @@ macro_rules! heap_run {
                 "zeroed" => unsafe { $B::<$T>::new_zeroed(cfg.init.len()) },
                 _ if all_zero && <$T as Item>::OWNED => unsafe { $B::<$T>::new_zeroed(cfg.init.len()) },
                 "default" => heap_default::<$T, $B<$T>>(cfg.init.len()),
+                "fromcap" => { // a Vec whose capacity exceeds its length: the buffer must use the length
+                    let mut v: Vec<$T> = Vec::with_capacity(cfg.init.len() * 2 + 3);
+                    v.extend(build::<$T>(&cfg.init));
+                    $B::<$T>::from(v) }
                 _ => $B::<$T>::from(build::<$T>(&cfg.init)),
             }
         });
